@@ -226,6 +226,44 @@ def ex_history(ctx, ops, seed=0):
     admissible = {1.0}
     ctx.count(1)
     mid = datetime.datetime(2010, 9, 17, tzinfo=UTC)
+    days = (end - start).days
+    org = numpy.asarray(reg.origins())
+
+    def queries(step, op, got):
+        """Read-only queries between the scaling operations: rate lookups for 1, n_mag (not in bin order) and 5 points and the per-event target rates
+        (as they are, and per day); they return the file's rate x the factor in force and change nothing."""
+        qr = numpy.random.default_rng([seed, 15, step + 1])
+        for npts in (1, data.shape[1], 5):
+            cells = qr.integers(0, data.shape[0], npts)
+            kb = qr.permutation(data.shape[1])[:npts] if npts <= data.shape[1] else qr.integers(0, data.shape[1], npts)
+            if npts == data.shape[1] and numpy.array_equal(kb, numpy.arange(npts)):
+                kb = kb[::-1]
+            lo, la, mg = org[cells, 0] + 0.05, org[cells, 1] + 0.05, mags[kb] + 0.03
+            want = got[cells, kb]
+            ok, rates, tb = ctx.call(fore.get_rates, lo, la, mg)
+            ctx.mon("history:lookup-between-scalings", 1)
+            if not ok or numpy.shape(rates) != want.shape or not numpy.allclose(numpy.asarray(rates, dtype=float), want, rtol=1e-12, atol=0):
+                ctx.violate("get_rates != rate of the containing bin x factor in force", rc, observed=repr(rates)[:200], expected=want,
+                            tags={"clause": "lookup-after-scaling", "op": op, "n_points": npts, "array_factor": bool(op in ARRAY_OPS)})
+                return False
+            cat = fixtures.catalog(lo, la, mg, region=reg)
+            for per_day in (False, True) if (seed + step + npts) % 2 else (True, False):
+                ok, out, tb = ctx.call(fore.target_event_rates, cat, scale=per_day)
+                div = float(days) if per_day else 1.0
+                good = ok and numpy.shape(out[0]) == want.shape and numpy.allclose(numpy.asarray(out[0], dtype=float), want / div, rtol=1e-12, atol=0) \
+                    and numpy.ndim(out[1]) == 0 and close(float(out[1]), float(numpy.sum(got)) / div, rel=1e-12)
+                if not good:
+                    ctx.violate("target_event_rates != (rates of the events' bins, total) x factor in force [/ days]", rc, observed=repr(out)[:200],
+                                expected=[want / div, float(numpy.sum(got)) / div], tags={"clause": "target-rates", "op": op, "per_day": per_day})
+                    return False
+        again = numpy.asarray(fore.data, dtype=float)
+        if not numpy.array_equal(again, got):
+            ctx.violate("a read-only query (get_rates / target_event_rates) changed the forecast's rates", rc, observed={"ratio": float(numpy.median(again / got))},
+                        expected={"ratio": 1.0}, tags={"clause": "query-mutates", "op": op, "step": step})
+            return False
+        return True
+    if seed % 2 == 0 and not queries(-1, "-", numpy.asarray(fore.data, dtype=float)):
+        return
     for step, op in enumerate(ops):
         if op in ARRAY_OPS:
             shp = {"percell": (data.shape[0], 1), "permag": (data.shape[1],), "full": data.shape}[op[6:-1]]
@@ -268,6 +306,8 @@ def ex_history(ctx, ops, seed=0):
             and close(float(numpy.sum(fore.magnitude_counts())), float(fore.sum()), rel=1e-12)
         if not s_ok:
             ctx.violate("marginals do not sum to the total after scaling", rc, tags={"clause": "marginals", "op": op})
+        if (seed + step) % 2 == 0 and not queries(step, op, got):
+            return
     if len(ops) >= 2:
         ctx.nt(digest(("hist", list(ops), seed)))
 
